@@ -506,6 +506,152 @@ static void runBatch(uint64_t seed, uint64_t idx, vfnet::Pki &pki, int onlyScn)
   tgt.reset();
 }
 
+
+// ------------------------------------------------------------------------------ teardown-racing batch
+// connectSync callers parked (or about to park) on an ACCEPTING target while another thread stops or
+// destroys the transport, with the I/O thread held inside slow global onConnect callbacks of
+// asynchronous connects so that the callers' Connect commands are still queued when teardown begins.
+// Judged by the same rules: global callbacks only for ids that were handed out, nothing left open.
+static void runTeardownBatch(uint64_t seed, uint64_t idx, vfnet::Pki &pki)
+{
+  (void)pki;
+  auto &O = vf::out();
+  vf::Rng rng(seed, idx ^ 0x7ea4d07ull);
+  const char *scn = "teardown-racing";
+  g_curScn = scn;
+  O.line("{\"t\":\"begin\",\"idx\":" + std::to_string(idx) + ",\"scn\":\"" + scn + "\"}");
+  bool destroy = rng.chance(0.65);
+  int nCallers = int(rng.range(1, 6));
+  int nAsync = int(rng.range(1, 3));
+  uint32_t holdUs = uint32_t(rng.range(300, 5000));
+  std::unique_ptr<vfnet::Target> tgt(new vfnet::Target(TK::Accept, nullptr, seed * 31 + idx));
+  auto st = std::make_shared<BatchState>();
+  TransportConfig cfg;
+  auto t = Transport::tcp(cfg);
+  t->onConnect([st, holdUs](SessionId sid, const TransportAddress &) {
+    { std::lock_guard<std::mutex> g(st->m); st->evs.push_back({0, sid, vf::nowNs(), 0, ""}); }
+    vf::sleepMs(double(holdUs) / 1000.0); // slow user callback: everything queued behind it waits
+  });
+  t->onClose([st](SessionId sid, const TransportErrorInfo &r) { std::lock_guard<std::mutex> g(st->m); st->evs.push_back({1, sid, vf::nowNs(), int(r.code), r.message}); });
+  t->onData([st](SessionId sid, iora::core::BufferView d, std::chrono::steady_clock::time_point) { std::lock_guard<std::mutex> g(st->m); st->data[sid].append((const char *)d.data(), d.size()); });
+  if (!t->start().isOk()) { O.inconclusive("transport start failed"); return; }
+  Transport *raw = t.get();
+  uint64_t base = t->getStats().commands;
+  std::set<uint64_t> asyncIds;
+  for (int i = 0; i < nAsync; i++) { auto r = t->connect("127.0.0.1", tgt->port(), TlsMode::None); if (r.isOk()) asyncIds.insert(r.value()); }
+  std::vector<CallRec> recs(static_cast<size_t>(nCallers));
+  std::vector<std::unique_ptr<CallReg>> regs;
+  for (int i = 0; i < nCallers; i++) regs.emplace_back(new CallReg());
+  { std::lock_guard<std::mutex> g(g_regsM); g_regs = &regs; }
+  std::vector<std::thread> th;
+  std::vector<uint32_t> startUs;
+  for (int i = 0; i < nCallers; i++) startUs.push_back(uint32_t(rng.below(holdUs / 2 + 1)));
+  uint16_t port = tgt->port();
+  for (int ci = 0; ci < nCallers; ci++)
+    th.emplace_back([&, ci] {
+      vf::sleepMs(double(startUs[size_t(ci)]) / 1000.0);
+      CallRec &c = recs[size_t(ci)];
+      c.caller = ci; c.timeoutMs = 5000;
+      auto &reg = *regs[size_t(ci)];
+      reg.timeoutMs = c.timeoutMs; reg.api = 0; reg.since = vf::nowNs(); reg.active = 1;
+      c.t0 = vf::nowNs();
+      try
+      {
+        // raw pointer: a caller that co-owned the transport would keep it alive (no destruction to race)
+        ConnectResult res = raw->connectSync("127.0.0.1", port, TlsMode::None, std::chrono::milliseconds(c.timeoutMs));
+        c.t1 = vf::nowNs();
+        if (res.isOk()) { c.ok = true; c.sid = res.value(); }
+        else { c.code = int(res.error().code); c.msg = res.error().message; }
+      }
+      catch (const std::exception &ex) { c.t1 = vf::nowNs(); c.threw = true; c.msg = ex.what(); }
+      reg.active = 0;
+    });
+  // teardown moment
+  bool allEnqueued = false;
+  if (destroy)
+  {
+    // a destroying teardown may only race callers the transport already counts: every caller has
+    // enqueued its Connect (commands counter) and one pass through the sync lock proves the last
+    // one has parked (connectSync holds that lock from before the enqueue until it waits)
+    uint64_t until = vf::nowNs() + 6000000000ull;
+    while (vf::nowNs() < until) { if (t->getStats().commands >= base + uint64_t(nAsync) + uint64_t(nCallers)) { allEnqueued = true; break; } vf::sleepMs(0.05); }
+    ReadMode rm; (void)t->getReadMode(0, rm);
+    if (!allEnqueued) destroy = false; // fall back to stop(): the object then outlives every caller
+  }
+  else vf::sleepMs(double(rng.below(holdUs * uint64_t(nAsync) + 1)) / 1000.0);
+  if (rng.chance(0.5)) vf::sleepMs(double(rng.below(holdUs)) / 1000.0);
+  uint64_t td0 = vf::nowNs();
+  if (destroy) { t.reset(); O.obs("teardown_racing_destroyed_with_callers_parked"); }
+  else { t->stop(); O.obs("teardown_racing_stopped"); }
+  uint64_t td1 = vf::nowNs();
+  for (auto &x : th) x.join();
+  { std::lock_guard<std::mutex> g(g_regsM); g_regs = nullptr; }
+  if (t) t.reset();
+  O.obsMax("teardown_racing_max_teardown_ms", (td1 - td0) / 1000000ull);
+
+  std::set<uint64_t> okIds;
+  size_t nOk = 0;
+  for (auto &c : recs)
+  {
+    std::string cls = c.threw ? "exception" : c.ok ? "ok" : (c.code == int(TransportError::Unknown) && c.msg == "shutdown") ? "closed-by-shutdown" : errName(c.code);
+    O.obs("teardown_racing_returned_" + cls);
+    if (c.threw) O.viol("C04:exception:teardown-racing", "connectSync threw: " + c.msg, callJson(scn, c));
+    else if (c.ok) { nOk++; if (!okIds.insert(c.sid).second) O.viol("C04:duplicate-session-id", "two successful calls returned the same session id", callJson(scn, c)); }
+    else if (!(cls == "ShuttingDown" || cls == "closed-by-shutdown"))
+      O.viol("C04:unexpected-error:teardown-racing:" + cls, "connectSync against an accepting target, interrupted by teardown, returned an error neither the target nor the teardown can produce", callJson(scn, c));
+    char sg[96];
+    snprintf(sg, sizeof sg, "teardown-racing|%d|%s|%d", destroy ? 1 : 0, cls.c_str(), nCallers > 2);
+    O.caseSig(vf::fnv(sg));
+    O.sample(callJson(scn, c));
+  }
+  O.obs("calls", uint64_t(nCallers));
+  O.obs("calls_teardown-racing", uint64_t(nCallers));
+  // nothing left behind at the peer
+  {
+    uint64_t tq = vf::nowNs(), hard = tq + 10000000000ull;
+    size_t open = 0; bool settled = false;
+    for (;;)
+    {
+      open = 0;
+      for (auto &ci : tgt->snapshot()) if (ci.closeHow == 0) open++;
+      uint64_t now = vf::nowNs();
+      if (open == 0 && now - std::max(tgt->lastAcceptNs(), tq) > 40000000ull) { settled = true; break; }
+      if (now > hard) break;
+      vf::sleepMs(1);
+    }
+    if (!settled) suspect(idx, "C04:connection-left-behind:teardown-racing", "a peer-side connection is still open 10 s after the transport was destroyed", "{\"open\":" + std::to_string(open) + "}");
+    else O.obs("batches_peer_saw_everything_closed");
+  }
+  // global callbacks only for ids that were handed out
+  {
+    std::lock_guard<std::mutex> g(st->m);
+    size_t asyncConnected = 0;
+    for (auto &e : st->evs)
+    {
+      if (e.kind == 0)
+      {
+        if (asyncIds.count(e.sid)) { asyncConnected++; O.obs("global_onConnect_for_async_connect"); }
+        else O.viol("C04:global-onConnect:id-never-returned", "global onConnect fired for a session id that no connect()/successful connectSync returned",
+                    "{\"target\":\"teardown-racing\",\"sid\":" + std::to_string(e.sid) + ",\"destroy\":" + (destroy ? "true" : "false") + "}");
+      }
+      else if (e.kind == 1)
+      {
+        if (okIds.count(e.sid) || asyncIds.count(e.sid)) O.obs("global_onClose_for_handed_out_id");
+        else O.viol("C04:global-onClose:id-never-returned:teardown-racing:" + reasonClass(e.code, e.msg),
+                    "global onClose fired for a session id that connectSync never handed to its caller (the call was interrupted by teardown)",
+                    "{\"sid\":" + std::to_string(e.sid) + ",\"reason\":" + vf::jstr(e.msg.substr(0, 100)) + ",\"code\":\"" + errName(e.code) + "\",\"destroy\":" + (destroy ? "true" : "false") +
+                      ",\"callers\":" + std::to_string(nCallers) + ",\"slow_onConnect_us\":" + std::to_string(holdUs) + "}");
+      }
+    }
+    // connects that completed (the peer accepted them) for callers that had already been sent away
+    size_t accepted = tgt->accepted();
+    if (accepted > nOk + asyncConnected) O.obs("teardown_racing_connects_completed_after_caller_gave_up", accepted - nOk - asyncConnected);
+  }
+  O.obs("teardown_racing_batches");
+  O.obs("batches");
+  tgt.reset();
+}
+
 int main(int argc, char **argv)
 {
   vf::Args A(argc, argv);
@@ -558,7 +704,9 @@ int main(int argc, char **argv)
   {
     g_curIdx = int64_t(i);
     g_progressNs = vf::nowNs();
-    runBatch(seed, i, pki, onlyScn);
+    vf::Rng kindPick(seed, i * 2654435761ull + 17);
+    if (onlyScn == 99 || (onlyScn < 0 && kindPick.chance(0.12))) runTeardownBatch(seed, i, pki);
+    else runBatch(seed, i, pki, onlyScn);
   }
 #if !VF_TSAN
   vf::out().obs("condvar_waits_seen_by_shim", vf::shim::condvarPolicy().waits.load());
